@@ -3,10 +3,11 @@
 package main
 
 import (
+	"bytes"
 	"encoding/base64"
 	"encoding/json"
 	"fmt"
-	"math"
+	"math/big"
 	"sort"
 	"strings"
 
@@ -24,18 +25,31 @@ func stdDecodeAny(seg []byte) ([]byte, bool) {
 	return nil, false
 }
 
-// jdoc renders what encoding/json makes of a segment: obj n (key kind value)* | null | bad | nob64
+// jdoc renders what a segment IS, by RFC 8259 — not what the code under test makes of it: obj n (key kind value)* | null |
+// bad | nob64.  Syntax: json.Valid; members: a token-level decoder that keeps numbers as text (UseNumber), so a number
+// outside float64 range (1e999) is still a number; the second a number denotes is floor(value), computed exactly with
+// big.Rat ("o" when the exponent is beyond what big.Rat accepts).  Duplicate names: the last one wins (as in Go, and as
+// every JWT library reads them).
 func jdoc(seg []byte) []string {
 	raw, ok := stdDecodeAny(seg)
 	if !ok {
 		return []string{"nob64"}
 	}
-	m := make(map[string]any)
-	if err := json.Unmarshal(raw, &m); err != nil {
+	if !json.Valid(raw) {
 		return []string{"bad"}
 	}
-	if m == nil {
+	t := bytes.TrimLeft(raw, " \t\r\n")
+	if bytes.HasPrefix(t, []byte("null")) {
 		return []string{"null"}
+	}
+	if !bytes.HasPrefix(t, []byte("{")) {
+		return []string{"bad"}
+	}
+	dec := json.NewDecoder(bytes.NewReader(raw))
+	dec.UseNumber()
+	var m map[string]any
+	if err := dec.Decode(&m); err != nil {
+		return []string{"bad"} // nesting deeper than the library reads (10000 levels)
 	}
 	keys := make([]string, 0, len(m))
 	for k := range m {
@@ -47,10 +61,10 @@ func jdoc(seg []byte) []string {
 		switch v := m[k].(type) {
 		case string:
 			out = append(out, hxs(k), "s", hxs(v))
-		case float64:
-			fl := math.Floor(v)
-			if math.Abs(fl) < 1e15 {
-				out = append(out, hxs(k), "n", hxs(fmt.Sprintf("%d", int64(fl))))
+		case json.Number:
+			if r, ok := new(big.Rat).SetString(string(v)); ok {
+				fl := new(big.Int).Div(r.Num(), r.Denom()) // Euclidean division by a positive denominator = floor
+				out = append(out, hxs(k), "n", hxs(fl.String()))
 			} else {
 				out = append(out, hxs(k), "o", "-")
 			}
@@ -97,11 +111,15 @@ func init() {
 
 func genC18(tier string, r *rng) {
 	emitJ := func(s string) { emit("jwt", jwtArgs([]byte(s))...) }
-	reg := []string{"alg", "typ", "jku", "jwk", "kid", "x5u", "x5c", "x5t", "x5t#S256", "aud", "exp", "iat", "iss", "jti", "nbf", "sub"}
+	reg := []string{"alg", "typ", "cty", "jku", "jwk", "kid", "x5u", "x5c", "x5t", "x5t#S256", "aud", "exp", "iat", "iss", "jti", "nbf", "sub"}
 	unknown := []string{"foo", "ALG", "exp ", "", "scope", "x5t#S512"}
 	algs := []string{"HS256", "HS384", "HS512", "RS256", "RS384", "RS512", "ES256", "ES384", "ES512", "PS256", "PS384", "PS512", "none", "EdDSA", "hs256", ""}
-	strs := []string{"x", "", "user@example.com", "https://a/b?c=d", "1700000000", "-1", "+5", "007", "1e3", " 5", "9223372036854775808", "a\nb", "日本", "\x1b[2J"}
-	nums := []string{"1700000000", "0", "-1", "1.5", "-1.5", "1e9", "2147483648", "253402300799", "-62135596800", "1700000000.999", "1E3", "0.0", "-0"}
+	strs := []string{"x", "", "user@example.com", "https://a/b?c=d", "1700000000", "-1", "+5", "007", "1e3", " 5", "9223372036854775808", "a\nb", "日本", "\x1b[2J",
+		"tomorrow", "2024-01-01T00:00:00Z", "1700000000.5", "-9223372036854775808", "9223372036854775807", "4611686018427387904", "-4611686018427387903"}
+	nums := []string{"1700000000", "0", "-1", "1.5", "-1.5", "1e9", "2147483648", "253402300799", "-62135596800", "1700000000.999", "1E3", "0.0", "-0",
+		// numbers a float64 cannot hold, or holds inexactly: still JSON numbers (RFC 8259 §6 sets no range)
+		"1e999", "-1e309", "1e400", "1" + strings.Repeat("0", 309), "1e16", "9007199254740992", "9007199254740991", "9007199254740993", "-9007199254740993",
+		"1e18", "4611686018427387903", "4611686018427387904", "-4611686018427387904", "1e-400", "123456789012345678", "1.7e9", "17e8", "0.17e10", "1e23", "-1e-1"}
 	others := []string{"null", "true", "false", "[]", "[\"a\"]", "{}", "{\"a\":1}"}
 	enc := func(b []byte, which int) string { return stdEncs[which%4].EncodeToString(b) }
 	n := 1500
@@ -188,10 +206,19 @@ func genC18(tier string, r *rng) {
 	emitJ(enc([]byte(`{"alg":"none"}`), 1) + "." + enc([]byte(`{}`), 1) + ".QUJ\nD")
 	// every registered name alone with a string, a number, an empty string; every algorithm
 	for _, k := range reg {
-		for _, v := range []string{"\"v\"", "\"\"", "1700000000", "\"1700000000\"", "null", "[\"v\"]"} {
+		for _, v := range []string{"\"v\"", "\"\"", "1700000000", "\"1700000000\"", "null", "[\"v\"]", "1e999", "1e16", "9007199254740993", "4611686018427387904",
+			"\"tomorrow\"", "\"-9223372036854775808\"", "\"4611686018427387904\"", "\" JWT\""} {
 			kb, _ := json.Marshal(k)
 			emitJ(enc([]byte("{\"alg\":\"HS256\"}"), 1) + "." + enc([]byte("{"+string(kb)+":"+v+"}"), 1) + "." + enc([]byte("sig"), 1))
 			emitJ(enc([]byte("{"+string(kb)+":"+v+"}"), 1) + "." + enc([]byte("{}"), 1) + "." + enc([]byte("sig"), 1))
+		}
+	}
+	// numbers outside float64 range anywhere in either object: the segment is still a JSON object
+	for _, big := range []string{"1e999", "-1e309", "1e400", "1" + strings.Repeat("0", 309), "1" + strings.Repeat("0", 308), "1e308", "1.8e308", "-1.8e308"} {
+		for _, doc := range []string{`{"iss":"me","exp":` + big + `}`, `{"iss":"me","x":` + big + `}`, `{"iss":"me","x":{"y":[` + big + `]}}`} {
+			emitJ(enc([]byte(`{"alg":"HS256","typ":"JWT"}`), 1) + "." + enc([]byte(doc), 1) + "." + enc([]byte("sig"), 1))
+			emitJ(enc([]byte(`{"alg":"HS256","n":`+big+`}`), 1) + "." + enc([]byte(`{"sub":"x"}`), 1) + "." + enc([]byte("sig"), 1))
+			emit("jwtfile", jwtArgs([]byte(enc([]byte(`{"alg":"HS256"}`), 1)+"."+enc([]byte(doc), 1)+"."+enc([]byte("sig"), 1)))...)
 		}
 	}
 	// every registered algorithm name and its neighbours: extended (ES256K of RFC 8812, HS256/128), prefixed, truncated,
